@@ -114,6 +114,45 @@ func enumHistories() [][]Op {
 	return out
 }
 
+// enumSchedules: the bounded-exhaustive leg of C09 and C14 — every block schedule of three
+// steps drawn from {I-1ns, I, I+1ns, 2I, 2I+1ns, 5I+1ns} (I = claim interval = decay interval)
+// for every combination of take rate, decay rate and staked total, with a deposit between
+// the second and third block.
+func enumSchedules() [][]Op {
+	I := 5 * sec
+	rates := []string{"0.000000000000000001", "0.001", "0.5", "0.999999"}
+	decays := []string{"1", "0.5", "0.99"}
+	totals := []string{"1", "2", "3", "1000", "1000001", "1000000000000000007"}
+	steps := []int64{I - 1, I, I + 1, 2 * I, 2*I + 1, 5*I + 1}
+	var out [][]Op
+	for _, r := range rates {
+		for _, d := range decays {
+			for _, tot := range totals {
+				for _, a := range steps {
+					for _, b := range steps {
+						for _, c := range steps {
+							h := []Op{
+								{K: KUnbTime, Dt: sec},
+								{K: KParams, Signer: "auth", Delay: 0, Interval: I},
+								{K: KCreate, Denom: "aaa", Signer: "auth", RW: "1", RWMin: "0.1", RWMax: "10", TakeRate: r, ChRate: d, ChInt: I},
+								{K: KBlock, Dt: sec},
+								{K: KDelegate, D: 0, V: 0, Denom: "aaa", Amt: tot},
+								{K: KBlock, Dt: a},
+								{K: KBlock, Dt: b},
+								{K: KDelegate, D: 1, V: 1, Denom: "aaa", Amt: "1000"},
+								{K: KBlock, Dt: c},
+								{K: KBlock, Dt: 1},
+							}
+							out = append(out, h)
+						}
+					}
+				}
+			}
+		}
+	}
+	return out
+}
+
 func TestEnumerate(t *testing.T) {
 	prop := os.Getenv("VERIF_PROP")
 	if prop == "" || os.Getenv("VERIF_ENUM") == "" {
@@ -125,6 +164,9 @@ func TestEnumerate(t *testing.T) {
 	}
 	w := world(t)
 	hs := enumHistories()
+	if prop == "C09" || prop == "C14" {
+		hs = enumSchedules()
+	}
 	shard, nshards := 0, 1
 	fmt.Sscan(os.Getenv("VERIF_SHARD"), &shard)
 	fmt.Sscan(os.Getenv("VERIF_NSHARDS"), &nshards)
